@@ -98,6 +98,8 @@ fn classify(c: &Case, obs: &mut Obs) {
     obs.class_if(c.k > 1 && c.k < c.p, "1<k<p");
     obs.class_if(2 * c.k > c.p && c.k < c.p, "p/2<k<p");
     obs.class_if(c.p == 1, "p=1");
+    obs.class_if(c.p >= 10, "p>=10");
+    obs.class_if(c.k >= 2 && 5 * c.k <= c.p, "k>=2_and_5k<=p");
     obs.class_if(c.whiten, "whiten");
     obs.class_if(!c.whiten, "no_whiten");
     obs.class_if(c.n == c.p + 1, "n=p+1");
@@ -250,45 +252,30 @@ pub fn check_pca(c: &Case, obs: &mut Obs) {
     obs.class_if(resid > 1e-7, "residual>1e-7");
     let mut spectral = in_range && resid <= RESID_MAX;
     obs.class_if(!in_range && resid > RESID_MAX, "beyond_singular_ratio_1e3:solver_inaccurate");
-    // Second face of the same breakdown: every direction is an eigenvector, but sigma_j belongs to another one
-    // (the value of eigenpair 2 with the vector of eigenpair 3). This is attributed to the solver only where the
-    // breakdown is systematic (k does not divide p, or requested eigenvalues below DYN·λ₁); elsewhere the
-    // obligations below name the deviation.
-    let breakdown_prone = (k > 1 && k < p && p % k != 0) || wide_range;
+    // Second face of the same breakdown: every returned direction is an eigenvector of C and every
+    // sigma_j^2/(n-1) is an eigenvalue of C, but they are mis-assigned — sigma_j belongs to another component
+    // (value of eigenpair 2 with the vector of eigenpair 3), or the pairs are not the leading ones (LOBPCG locked
+    // onto eigenpair 3 and never saw eigenpair 2). Recognised by the exact wrong values; any other disagreement
+    // between sigma and the components (a value that is no eigenvalue at all) is named by the obligations below.
+    let l: Vec<f64> = sigma.iter().map(|s| s * s / nm1).collect();
+    let values_are_eigs = l.iter().all(|v| lam.iter().any(|e| (v - e).abs() <= RESID_MAX * e.abs()));
+    let leading_ok = (0..kk).all(|j| (l[j] - lam[j]).abs() <= RESID_MAX * lam[j].abs());
+    let sorted = (1..kk).all(|j| sigma[j - 1] >= sigma[j]);
     if !in_range {
         // not judged spectrally
-    } else if spectral && mismatch > RESID_MAX && breakdown_prone {
+    } else if spectral && small_problem && values_are_eigs && sorted && (mismatch > RESID_MAX || !leading_ok) {
         spectral = false;
-        obs.class("solver_failed:value_vector_mismatch");
+        obs.class("solver_failed:eigenpairs_misassigned");
+        obs.class_if(k > 1 && k < p && p % k != 0, "solver_failed:k_does_not_divide_p");
         obs.fail(
-            "pca:solver-breakdown:value-vector-mismatch",
+            "pca:solver-breakdown:eigenpairs-misassigned",
             format!(
-                "n={n}, p={p}, embedding size {k}, whiten={}: the returned components are eigenvectors of the sample covariance, but some sigma_j^2/(n-1) differs from \
-                 the variance along its own component by {mismatch:.3e} (relative); sigma^2/(n-1) = {:?}, covariance eigenvalues = {:?}",
+                "n={n}, p={p}, embedding size {k}, whiten={}: components are eigenvectors and sigma^2/(n-1) are eigenvalues of the sample covariance, but \
+                 {}; sigma^2/(n-1) = {:?}, variances along the components = {:?}, covariance eigenvalues = {:?}",
                 c.whiten,
-                sigma.iter().map(|s| s * s / nm1).collect::<Vec<_>>(),
-                lam
-            ),
-        );
-    } else if spectral && small_problem && mismatch <= RESID_MAX && {
-        // Third face: genuine eigenpairs, consistently paired and sorted, but not the *leading* ones — some
-        // sigma_j^2/(n-1) is an eigenvalue of the covariance further down the spectrum (LOBPCG locked onto
-        // eigenpair 3 and never saw eigenpair 2). Recognised by the exact wrong value.
-        let l: Vec<f64> = sigma.iter().map(|s| s * s / nm1).collect();
-        let off: Vec<usize> = (0..kk).filter(|&j| (l[j] - lam[j]).abs() > RESID_MAX * lam[j]).collect();
-        !off.is_empty()
-            && off.iter().all(|&j| (j + 1..p).any(|m| (l[j] - lam[m]).abs() <= RESID_MAX * lam[m]))
-            && (1..kk).all(|j| sigma[j - 1] >= sigma[j])
-    } {
-        spectral = false;
-        obs.class("solver_failed:non_leading_eigenpair");
-        obs.fail(
-            "pca:solver-breakdown:non-leading-eigenpair",
-            format!(
-                "n={n}, p={p}, embedding size {k}, whiten={}: the returned pairs are eigenpairs of the sample covariance but not the leading ones; \
-                 sigma^2/(n-1) = {:?}, covariance eigenvalues = {:?}",
-                c.whiten,
-                sigma.iter().map(|s| s * s / nm1).collect::<Vec<_>>(),
+                if mismatch > RESID_MAX { "a sigma_j belongs to another component" } else { "they are not the leading eigenpairs" },
+                l,
+                dirs.iter().map(|d| retained(&vec![d.clone()], &cov)).collect::<Vec<_>>(),
                 lam
             ),
         );
